@@ -4,7 +4,7 @@ through the real API and every call of the domain is made for real."""
 from lib import vlib
 from lib.replay import replay_family
 
-CLASSES = ["f1", "f2", "v0", "v1", "v2", "m1", "mv", "n1"]
+CLASSES = ["f1", "f2", "v0", "v1", "v2", "m1", "mv", "n1", "t2", "tv"]
 
 
 def classify(ro):
@@ -37,7 +37,7 @@ def run(ctx):
         total += len(behs)
         replay_family(ctx, "when", behs, env={"VERIF_SIG": name}, classify=classify)
     ctx.cov["exhaustive"] = True
-    ctx.cov["rule"] = ("for each of 8 signature classes (1/2 fixed, variadic with 0/1/2 leading fixed, method, variadic method, "
+    ctx.cov["rule"] = ("for each of 10 signature classes (1/2 fixed, variadic with 0/1/2 leading fixed, method, variadic method, typed string+pointer, typed variadic strings, "
                        "no result) TLC enumerates every well-formed configuration (optional default; clauses with one "
                        "expression per actual argument from {value, Any, In(set)}; In-clauses of two tuples) within the stated "
                        "bounds, checks mechanism=requirement for every call tuple (tail length 0..2), and each configuration is "
